@@ -190,8 +190,11 @@ def main(argv):
     # ---------------- evidence
     ev = build_evidence(prop, tier, seed, outcomes, kout, mutant_results, violations, undecided, known_hits, time.time() - t0)
     ev['coverage']['native_search_exploration'] = native
-    os.makedirs(EVID, exist_ok=True)
-    with open(os.path.join(EVID, prop + '.json'), 'w') as f:
+    # a run made by tools/seed_eval.py with a property-breaking change applied to /repo must not overwrite the evidence of the
+    # unchanged tree (the evidence files are committed): it writes under .build instead
+    evid_dir = os.path.join(VERIF, '.build', 'evidence_seed_eval') if os.environ.get('VERIF_SEED_EVAL') else EVID
+    os.makedirs(evid_dir, exist_ok=True)
+    with open(os.path.join(evid_dir, prop + '.json'), 'w') as f:
         json.dump(ev, f, indent=1)
 
     for (k, uname, fl) in known_hits:
